@@ -421,6 +421,8 @@ SAFETY_FLAGS = ['--bounds-check', '--pointer-check', '--signed-overflow-check', 
                 '--div-by-zero-check', '--pointer-overflow-check']
 
 _tool_version = None
+import threading
+SOLVER_SLOTS = threading.BoundedSemaphore(int(os.environ.get('VX_JOBS', '16')))
 
 
 def tool_version():
@@ -462,7 +464,7 @@ class Harness:
     def __init__(self, name, entry, enforce=None, replace=(), loop_contracts=False, unwind=None,
                  method='LF', props=(), tier='quick', defines=(), flags=(), solver='', timeout=1500,
                  mem_gb=12, min_obligations=1, expect_classes=None, bounded=False, cover=False,
-                 known=None, dfcc=True, object_bits=None, replay=None, note=''):
+                 known=None, dfcc=True, object_bits=None, replay=None, note='', split=False, only=None):
         self.__dict__.update(locals())
         del self.__dict__['self']
 
@@ -567,15 +569,62 @@ def build_and_check(unit, h, ctext, info, outdir, nocache=False, trace_prop=None
         res['instrument_log'] = (so + se)[-2000:]
     if trace_prop:
         cb = cb[:-1] + ['--trace', '--property', trace_prop, cb[-1]]
-    rc, so, se, dt = run(cb, h.timeout, mem_gb=h.mem_gb)
-    res['solver_s'] = round(dt, 2)
-    if rc == 'timeout':
-        res.update(status='broken', reason='cbmc timeout after %ds' % h.timeout)
-        return res
-    results, msgs, verdict = parse_cbmc_json(so)
-    if results is None or verdict is None or rc not in (0, 10):
-        res.update(status='broken', reason='cbmc rc=%s: %s' % (rc, (so[-1500:] + se[-1500:])))
-        return res
+    if (h.split or h.only) and not trace_prop:
+        # one solver query per functional obligation (safety obligations in chunks): the obligations are the same,
+        # each query is sliced to the cone of influence of its properties and the queries run in parallel
+        rc, so, se, dt = run(['cbmc', '--json-ui', '--show-properties'] + cb[2:], 300, mem_gb=h.mem_gb)
+        names = []
+        desc_of = {}
+        try:
+            for item in json.loads(so):
+                for pr in item.get('properties', []):
+                    names.append((pr['name'], pr.get('class', '')))
+                    desc_of[pr['name']] = pr.get('description', '')
+        except Exception:
+            res.update(status='broken', reason='cannot list properties: ' + (so[-500:] + se[-500:]))
+            return res
+        if h.only:
+            names = [(n, c) for n, c in names if any(re.search(rx, n + ' ' + desc_of.get(n, '')) for rx in h.only)]
+        func = [n for n, c in names if re.search(r'\.(assertion|postcondition|precondition|loop_invariant|loop_decreases)', n) and not n.startswith('__CPROVER')]
+        rest = [n for n, c in names if n not in set(func)]
+        chunks = [[n] for n in func] + [rest[i:i + 12] for i in range(0, len(rest), 12)]
+        from concurrent.futures import ThreadPoolExecutor
+        results, msgs, verdict, tot = [], [], 'success', 0.0
+
+        def one(chunk):
+            cmd = cb[:-1] + [x for n in chunk for x in ('--property', n)] + [cb[-1]]
+            with SOLVER_SLOTS:
+                return run(cmd, h.timeout, mem_gb=h.mem_gb)
+        with ThreadPoolExecutor(16) as ex:
+            outs = list(ex.map(one, chunks))
+        for chunk, (rc, so, se, dt) in zip(chunks, outs):
+            tot += dt
+            if rc == 'timeout':
+                res.update(status='broken', reason='cbmc timeout after %ds on %s' % (h.timeout, chunk[:3]))
+                return res
+            r_, m_, v_ = parse_cbmc_json(so)
+            if r_ is None or v_ is None or rc not in (0, 10):
+                res.update(status='broken', reason='cbmc rc=%s on %s: %s' % (rc, chunk[:3], (so[-1000:] + se[-1000:])))
+                return res
+            want = set(chunk)
+            results += [r for r in r_ if r.get('property') in want]
+            msgs += m_
+            if v_ != 'success':
+                verdict = v_
+        res['solver_s'] = round(tot, 2)
+        res['queries'] = len(chunks)
+        rc, so = 0, None
+    else:
+        with SOLVER_SLOTS:
+            rc, so, se, dt = run(cb, h.timeout, mem_gb=h.mem_gb)
+        res['solver_s'] = round(dt, 2)
+        if rc == 'timeout':
+            res.update(status='broken', reason='cbmc timeout after %ds' % h.timeout)
+            return res
+        results, msgs, verdict = parse_cbmc_json(so)
+        if results is None or verdict is None or rc not in (0, 10):
+            res.update(status='broken', reason='cbmc rc=%s: %s' % (rc, (so[-1500:] + se[-1500:])))
+            return res
     obls = []
     for r in results:
         sl = r.get('sourceLocation', {})
